@@ -463,6 +463,12 @@ def check_set(b, res, instr, data, scenario, tags_prefix=""):
 
     b.add("decset %d %s %s" % (DEPTH, hx(data), " ".join(r["gzt"])), chk)
 
+    def xchk(l, g):
+        if g != ["agree"]:
+            disagree(res, "message-set iteration: the C12 model and the wire package's model differ", scenario, g[1:2], g[2:3])
+
+    b.add("xdecset %d %s %s" % (DEPTH, hx(data), " ".join(r["gzt"])), xchk)
+
     def mon(l, g):
         if g != ["ok"]:
             res.monitor_failures.append({"what": "message-set iteration cost exceeds the linear bound", "scenario": dict(scenario, cost=r["cost"], gz=r["gz"]), "tags": ["set-cost-superlinear"]})
@@ -758,11 +764,23 @@ def hostile_cases(ctx, res, instr, per_decoder, random_per_decoder):
 
         b.add("dec %s %d %d %s %s" % (name, version, DEPTH, hx(data), " ".join(r["gzt"])), chk)
 
+        def xchk(l, g):
+            if g != ["agree"]:
+                disagree(res, "decode_%s: the C12 model and the wire package's model differ" % name, sc, g[1:2], g[2:3])
+
+        b.add("xdec %s %d %d %s %s" % (name, version, DEPTH, hx(data), " ".join(r["gzt"])), xchk)
+
         def mon(l, g):
             if g != ["ok"]:
                 res.monitor_failures.append({"what": "decode_%s: primitive reads exceed the linear bound" % name, "scenario": dict(sc, reads=r["outer"]), "tags": ["reads-superlinear"]})
 
         b.add("mon-reads %d %d" % (len(data), r["outer"]), mon)
+        if name == "fetch":
+            def mon3(l, g):
+                if g != ["ok"]:
+                    res.monitor_failures.append({"what": "fetch response + all its message sets: cost exceeds the linear bound", "scenario": dict(sc, cost=r["cost"], gz=r["gz"]), "tags": ["fetch-total-superlinear"]})
+
+            b.add("mon-fetchtotal %d %d %d" % (len(data), r["gz"], r["cost"]), mon3)
         for cost, gz in r["sets"]:
             def mon2(l, g, cost=cost, gz=gz):
                 if g != ["ok"]:
@@ -989,18 +1007,100 @@ def run(ctx, res):
         "boundary+-1 and sampled cuts of large ones. hostile: each decode_* on valid/mutated/random bytes and every count/length field x "
         "{-32768,-8,-2,-1,0,32767,2^31-1}. non-trivial = a corrupted/truncated/hostile input (not a plain valid one); distinct by content hash."
     )
-    q = ctx.tier == "quick"
+    if ctx.tier == "thorough":
+        run_sharded(ctx, res)
+    else:
+        sections(ctx, res, 1.0, corpus=True)
+    res.notes.append("real time and peak allocation are recorded under cost_evidence / worst_seconds_per_byte / alloc_by_size as evidence only; they are not compared")
+
+
+def sections(ctx, res, f, corpus):
+    """All generator sections, sizes scaled by `f` (a shard of the thorough tier runs a fraction)."""
+
+    def n(q, t):
+        return max(1, int(ctx.scale(q, t) * f))
+
     with Instr() as instr:
-        run_corpus(ctx, res, instr)
-        crc_cases(ctx, res, ctx.scale(300, 3000))
-        msgset_cases(ctx, res, instr, ctx.scale(600, 8000))
-        cost_evidence(ctx, res, instr)
-        burst_cases(ctx, res, instr, n_msgs=ctx.scale(6, 24), exhaustive_span=ctx.scale(8, 11), per_span=ctx.scale(2, 6), sampled_large=ctx.scale(20, 150))
-        trunc_cases(ctx, res, instr, n_sets=ctx.scale(100, 1200), every_cut_below=ctx.scale(400, 1500), sampled_cuts=ctx.scale(20, 100))
-        hostile_cases(ctx, res, instr, per_decoder=ctx.scale(40, 500), random_per_decoder=ctx.scale(300, 4000))
-    grow_cases(ctx, res, ctx.scale(1500, 20000))
-    res.notes.append("real time and peak allocation are recorded under cost_evidence / worst_seconds_per_byte as evidence only; they are not compared")
-    _ = q
+        if corpus:
+            run_corpus(ctx, res, instr)
+            cost_evidence(ctx, res, instr)
+        crc_cases(ctx, res, n(300, 3000))
+        msgset_cases(ctx, res, instr, n(600, 8000))
+        burst_cases(ctx, res, instr, n_msgs=n(6, 24), exhaustive_span=ctx.scale(8, 11), per_span=ctx.scale(2, 6), sampled_large=n(20, 150))
+        trunc_cases(ctx, res, instr, n_sets=n(100, 1200), every_cut_below=ctx.scale(400, 1500), sampled_cuts=ctx.scale(20, 100))
+        hostile_cases(ctx, res, instr, per_decoder=n(40, 500), random_per_decoder=n(300, 4000))
+    grow_cases(ctx, res, n(1500, 20000))
+
+
+SHARDS = 16
+SHARD_FRACTION = 0.4  # each of the 16 shards runs 40 % of the single-process thorough sizes
+
+
+class ShardCtx:
+    """What a worker process needs of core.Ctx: tier, seed, an rng derived from (seed, shard), the model runner."""
+
+    def __init__(self, tier, seed, shard):
+        import random
+
+        from harness import core
+
+        self.tier, self.seed, self.shard = tier, seed, shard
+        self.rng = random.Random((seed * 1000003 + shard * 7919 + 12) ^ 0xC12)
+        self._run_model = core.run_model
+
+    def scale(self, q, t):
+        return t if self.tier == "thorough" else q
+
+    def model(self, comp, lines):
+        return self._run_model(comp, lines)
+
+
+def _shard_worker(args):
+    tier, seed, shard = args
+    ctx = ShardCtx(tier, seed, shard)
+    res = Result()
+    try:
+        sections(ctx, res, SHARD_FRACTION, corpus=(shard == 0))
+        crashed = None
+    except Exception:  # noqa: BLE001 - reported to the parent, which turns it into "undecided"
+        import traceback
+
+        crashed = traceback.format_exc()
+    return {"shard": shard, "crashed": crashed, "evaluations": res.evaluations, "distinct": res.distinct, "samples": res.samples,
+            "hist": res.hist, "traces_validated": res.traces_validated, "disagreements": res.disagreements[:50],
+            "n_disagreements": len(res.disagreements), "monitor_failures": res.monitor_failures[:50],
+            "n_monitor_failures": len(res.monitor_failures), "notes": res.notes, "extra": res.extra}
+
+
+def run_sharded(ctx, res):
+    """Thorough tier: 16 worker processes, each with its own rng derived from (VERIF_SEED, shard)."""
+    import multiprocessing
+
+    from harness import core
+
+    with multiprocessing.get_context("fork").Pool(SHARDS) as pool:
+        outs = pool.map(_shard_worker, [(ctx.tier, ctx.seed, i) for i in range(SHARDS)])
+    for o in outs:
+        if o["crashed"]:
+            raise core.Undecided("shard %d crashed:\n%s" % (o["shard"], o["crashed"][-3000:]))
+        res.evaluations += o["evaluations"]
+        res.distinct |= o["distinct"]
+        for sm in o["samples"]:
+            res.sample(sm, limit=6)
+        for k, v in o["hist"].items():
+            res.count(k, v)
+        res.traces_validated += o["traces_validated"]
+        res.disagreements.extend(o["disagreements"])
+        res.monitor_failures.extend(o["monitor_failures"])
+        for nt in o["notes"]:
+            if nt not in res.notes:
+                res.notes.append(nt)
+        for k, v in o["extra"].items():
+            if isinstance(v, (int, float)) and isinstance(res.extra.get(k), (int, float)):
+                res.extra[k] = max(res.extra[k], v) if k.startswith("worst") else res.extra[k] + v
+            elif k not in res.extra:
+                res.extra[k] = v
+    res.extra["shards"] = SHARDS
 
 
 def search(ctx, res, broken):
